@@ -18,6 +18,14 @@ CLAIMS = {
    text="Static decision of arithmetic-safety and refusal clauses of the coefficient-field classes: a symbolic range interpreter (linear forms over the modulus and the operands, exact Fourier-Motzkin, Houdini loop invariants) proves for every modulus in the stated range and all reduced operands that no intermediate of _add/_subtract/_multiply, the fused operations and get_value/_get_value (all instantiated integer types) wraps harmfully, overflows or converts a possibly negative value to unsigned before % or a comparison, and that every result is again in [0, modulus); run-time setters refuse 0, 1 and composites and do not depend on the previous state; the compile-time primality test is decided by compile-fail witnesses and its sibling copies must agree. Extended-Euclid inverses, the inverse-table loop bounds and GMP multi-field values are not decided.",
    note="Trusted: clang 14 Sema (implicit conversions as in the AST), contracts in tables/c10.json (each helper contract is verified on the helper itself), operands reduced as the property states. Documented overflow-unsafe fused operations are listed in known_findings.json.",
    tech="abstract interpretation (linear forms + Fourier-Motzkin) over the clang AST, path rules, compile-fail witnesses", ref="DESIGN.md 4/C10"),
+ "C03": dict(
+   text="Static decision of structural clauses behind 'the filtration order is valid and deterministic': the simplex-tree comparator is evaluated on every valuation of its comparison keys and must equal the lexicographic strict order (filtration value, reverse-lexicographic vertex word); reverse_lexicographic_order is evaluated on every lockstep scenario; hence the order is strict and total and any sort, sequential or parallel, stable or not, yields one sequence; the TBB and the sequential build sort the same range with that comparator; comparator and helper write nothing; every self-invalidating mutator (and copy/move assignment) drops the filtration cache on every path on which it modified the tree; for_each_simplex runs the callback on a node before its children and visits siblings backwards (what make_filtration_non_decreasing relies on). The values computed by make_filtration_non_decreasing / extend_filtration / prune are not decided.",
+   note="Trusted: clang 14 parser, trichotomy of filtration values (no NaN, as the property states), tables/c03.json (the documented self-invalidating mutators). Both preprocessor configurations (GUDHI_USE_TBB on/off) are parsed on every run.",
+   tech="finite predicate enumeration over comparator ASTs, sibling-arm agreement, purity, path rules with flag idiom", ref="DESIGN.md 4/C03"),
+ "C13": dict(
+   text="Static decision of the filtration-order clause of cubical complexes: is_before_in_filtration equals, on all 27 valuations of its keys, the lexicographic strict order (value, dimension, cell index): non-decreasing, faces first among equal values, total; both GUDHI_USE_TBB configurations sort the same range with it; it is pure. Boundary/coboundary incidences, dd=0, lower-star values and periodic index arithmetic are not decided (value-level).",
+   note="Trusted: clang 14 parser, trichotomy of the cell values. Only the order clause of C13 is claimed.",
+   tech="finite predicate enumeration over the comparator AST, sibling-arm agreement, purity", ref="DESIGN.md 4/C13"),
 }
 
 NA = {
